@@ -4,20 +4,20 @@
 import json, os, re, glob, subprocess
 head = subprocess.run(["git", "-C", "/repo", "rev-parse", "--short", "HEAD"], capture_output=True, text=True).stdout.strip()
 conf = {}
-for log in sorted(glob.glob("/verif/run/round[3456]*.log")):
+for log in sorted(glob.glob("/verif/run/round[34567]*.log")):
     for l in open(log):
-        m = re.match(r"(C\d\d-[EFGHIJKL]): (CONFIRMED|NOT-CONFIRMED|demo_clean=\d demo_mut=\d suite_mut=\d)", l)
+        m = re.match(r"(C\d\d-[EFGHIJKLMN]): (CONFIRMED|NOT-CONFIRMED|demo_clean=\d demo_mut=\d suite_mut=\d)", l)
         if m:
             conf.setdefault(m.group(1), []).append(l.strip())
 props = {json.loads(l)["id"]: json.loads(l) for l in open("/verif/properties.jsonl")}
-for d in sorted(glob.glob("/verif/seeded/C??-[EFGHIJKL]")):
+for d in sorted(glob.glob("/verif/seeded/C??-[EFGHIJKLMN]")):
     key = os.path.basename(d)
     p, x = key.split("-")
     notes = open(d + "/NOTES.md").read() if os.path.exists(d + "/NOTES.md") else ""
     m = re.search(r"(?is)needed to manifest\W*(.{0,700})", notes)
     mp = d + "/meta.json"
     meta = json.load(open(mp)) if os.path.exists(mp) else {}
-    rnd = 3 if x in "EF" else (4 if x in "GH" else (5 if x in "IJ" else 6))
+    rnd = 3 if x in "EF" else (4 if x in "GH" else (5 if x in "IJ" else (6 if x in "KL" else 7)))
     meta.update(dict(
         property=p, title=props[p]["title"], variant=x,
         origin="independent sub-agent given only the property text and a scratch worktree (round %d: told the triggers of the earlier changes "
